@@ -2,7 +2,7 @@
    Each is closed by [exact <lemma>] (or a two-line combination of lemmas) and followed by Print Assumptions.
    PD's behaviour is an explicit hypothesis:  pd : nat -> Z  is the sequence of timestamps PD hands out,
    pd_strict says it is strictly increasing. *)
-From Verif Require Import Oracle.Model Oracle.ModelSys Oracle.ModelVal Oracle.ModelInt Oracle.ProofsArith Oracle.ProofsSys Oracle.ProofsVal Oracle.ProofsInt Oracle.ProofsSeq Oracle.ProofsFresh.
+From Verif Require Import Oracle.Model Oracle.ModelSys Oracle.ModelVal Oracle.ModelInt Oracle.ProofsArith Oracle.ProofsSys Oracle.ProofsVal Oracle.ModelArr Oracle.ProofsInt Oracle.ProofsSeq Oracle.ProofsFresh Oracle.ProofsArr.
 From Coq Require Import Lia.
 Open Scope Z_scope.
 
@@ -72,12 +72,32 @@ Proof.
 Qed.
 Print Assumptions C13_lowres_bounds.
 
-(* --- IsExpired <-> UntilExpired <= 0, the int64 conversion of TTL and the int64 additions written out --- *)
+(* --- IsExpired <-> UntilExpired <= 0, the int64 conversion of TTL and the int64 additions written out.
+       Exact domain guard:  0 <= TTL < 2^63 - physical(lockTS)  (lockTS, lastTS any uint64; physical < 2^46, so every
+       TTL < 2^63 - 2^46 ms qualifies; the earlier guard TTL < 2^62 is the corollary below).  TTL values at or beyond
+       the guard are outside the property's input domain (lock TTLs are bounded by the managed TTL / max txn lifetime;
+       2^62 ms is about 146 million years): C13_expiry_boundary shows the guard is sharp. --- *)
 Theorem C13_expiry_consistent : forall last lock ttl,
+  0 <= lock < two64 -> (forall l, last = Some l -> 0 <= l < two64) ->
+  0 <= ttl < two63 - extract_physical lock ->
+  (is_expired last lock ttl = true <-> until_expired last lock ttl <= 0).
+Proof. exact expiry_consistent_exact. Qed.
+Print Assumptions C13_expiry_consistent.
+
+Theorem C13_expiry_consistent_ttl62 : forall last lock ttl,
   0 <= lock < two64 -> (forall l, last = Some l -> 0 <= l < two64) -> 0 <= ttl < two62 ->
   (is_expired last lock ttl = true <-> until_expired last lock ttl <= 0).
 Proof. exact expiry_consistent. Qed.
-Print Assumptions C13_expiry_consistent.
+Print Assumptions C13_expiry_consistent_ttl62.
+
+(* at the boundary: the first TTL outside the domain, 2^63 - physical(lockTS), gives IsExpired = true with a positive
+   UntilExpired, for every lock and every cached ts whose physical part is positive *)
+Theorem C13_expiry_boundary : forall lock l,
+  0 <= lock < two64 -> 0 <= l < two64 -> 1 <= extract_physical l ->
+  let ttl := two63 - extract_physical lock in
+  is_expired (Some l) lock ttl = true /\ 0 < until_expired (Some l) lock ttl.
+Proof. exact expiry_boundary_sharp. Qed.
+Print Assumptions C13_expiry_boundary.
 
 (* why the guard on TTL is there (outside the property's input domain): for TTL = MaxInt64 the two answers disagree *)
 Theorem C13_expiry_wide_ttl_refuted : exists last lock ttl,
@@ -201,6 +221,44 @@ Theorem C13_refresher_store_refuted :
 Proof. exact rstore_variant_refuted. Qed.
 Print Assumptions C13_refresher_store_refuted.
 
+(* --- the published record is the pair lastTSO{tso, arrival}: ModelArr = the CAS system with the clock read
+       (current.arrival = time.Now()), the arrival rule of the compare step and the pair in the cell; n threads
+       (foreground GetTimestamp / Wait callers and refresher rounds alike), fresh scope, any interleaving, any clock
+       advances.  PD's clock pd_ns is non-decreasing; PD never issues a timestamp ahead of its own clock (enabling
+       condition of the issue step).  Both components of the published record never go back. --- *)
+Theorem C13_arrival_monotone : forall (pd : nat -> Z) (pd_ns : Z -> Z),
+  (forall a b, a <= b -> pd_ns a <= pd_ns b) ->
+  forall n w0 es1 es2,
+    let s1 := arun pd pd_ns (init_asys n w0) es1 in
+    let s2 := arun pd pd_ns s1 es2 in
+    rec_le (arec s1) (arec s2) /\ wall s1 <= wall s2.
+Proof.
+  intros pd pd_ns mono n w0 es1 es2 s1 s2. split.
+  - exact (arec_run pd pd_ns mono es2 s1 (ainv_run pd pd_ns mono es1 _ (ainv_init pd_ns n w0))).
+  - exact (wall_run pd pd_ns mono es2 s1).
+Qed.
+Print Assumptions C13_arrival_monotone.
+
+(* the future-staleness guard over any interleaving: the published record arrived in the past, its timestamp had been
+   issued (by PD's clock) when it arrived; hence, PD's clock not being slower than the local one, the estimate of
+   GetStaleTimestamp at any later reading never exceeds PD's current physical time minus prevSecond *)
+Theorem C13_stale_not_future : forall (pd : nat -> Z) (pd_ns : Z -> Z),
+  (forall a b, a <= b -> pd_ns a <= pd_ns b) ->
+  forall n w0 es l a,
+    let s := arun pd pd_ns (init_asys n w0) es in
+    arec s = Some (l, a) ->
+    a <= wall s /\ extract_physical l * 1000000 <= pd_ns a /\
+    forall now prev r, stale_dom l a now prev -> pd_ns a + (now - a) <= pd_ns now ->
+      stale_ts l a now prev = Some r ->
+      extract_physical r <= pd_ns now / 1000000 - prev * 1000 /\ extract_logical r = 0.
+Proof.
+  intros pd pd_ns mono n w0 es l a s H.
+  destruct (arec_good pd_ns s l a (ainv_run pd pd_ns mono es _ (ainv_init pd_ns n w0)) H) as [G1 G2].
+  split; [exact G2|split; [exact G1|]].
+  intros now prev r D Hrate Hs. exact (stale_not_future pd_ns l a now prev r D G1 Hrate Hs).
+Qed.
+Print Assumptions C13_stale_not_future.
+
 (* --- the call-level model refines the CAS-level system: running the calls one after the other (each thread gets
        nine scheduler slots) publishes exactly what Model.set_last (publish the maximum) computes, every call returns
        PD's answer, untouched threads stay idle --- *)
@@ -274,7 +332,7 @@ Print Assumptions C13_stale_beyond_last_refuted.
    a timestamp PD had issued by then.  Then the published record's arrival never goes back, its timestamp had been
    issued when it arrived, and the estimate computed from it at any later time never exceeds PD's current physical
    time minus prevSecond. *)
-Theorem C13_stale_not_future : forall (pd_ns : Z -> Z),
+Theorem C13_stale_not_future_call_level : forall (pd_ns : Z -> Z),
   (forall a b, a <= b -> pd_ns a <= pd_ns b) ->
   forall calls t0, Forall (call_ok pd_ns) calls -> clock_sorted t0 calls ->
   forall l a, fold_left (fun r c => set_last_arr r (fst c) (snd c)) calls None = Some (l, a) ->
@@ -287,14 +345,14 @@ Proof.
   destruct (arrival_run pd_ns mono calls None t0 Logic.I F S) as [R _]. cbv zeta in R. rewrite H in R. destruct R as [R1 R2].
   split; [exact R2|]. intros now prev r D Hrate Hs. exact (stale_not_future pd_ns l a now prev r D R1 Hrate Hs).
 Qed.
-Print Assumptions C13_stale_not_future.
+Print Assumptions C13_stale_not_future_call_level.
 
 (* the arrival of the published record never goes back (call level) *)
-Theorem C13_arrival_monotone : forall (pd_ns : Z -> Z), (forall a b, a <= b -> pd_ns a <= pd_ns b) -> forall calls t0 r,
+Theorem C13_arrival_monotone_call_level : forall (pd_ns : Z -> Z), (forall a b, a <= b -> pd_ns a <= pd_ns b) -> forall calls t0 r,
   rec_ok pd_ns r t0 -> Forall (call_ok pd_ns) calls -> clock_sorted t0 calls ->
   rec_le r (fold_left (fun r c => set_last_arr r (fst c) (snd c)) calls r).
 Proof. intros pd_ns mono calls t0 r R F S. exact (proj2 (arrival_run pd_ns mono calls r t0 R F S)). Qed.
-Print Assumptions C13_arrival_monotone.
+Print Assumptions C13_arrival_monotone_call_level.
 
 (* --- local.go: the local oracle is strictly increasing while its clock does not go backwards and fewer than
        2^18 calls fall into one millisecond (state = (lastTimeStampTS, n), previous result = their sum) --- *)
@@ -333,6 +391,17 @@ Example ex_interval : let s0 := mkI 2000000000 2000000000 0 0 ISNormal in
 Proof. vm_compute. split; reflexivity. Qed.
 Example ex_stale : stale_ts (compose_ts 1700000000000 7) 5000000000 5250000000 10 = Some (compose_ts 1699999990250 0).
 Proof. vm_compute. reflexivity. Qed.
+(* the arrival rule at work: thread 1 (newer ts 11) read the clock at 5, thread 0 (ts 10) at 9 and installed first *)
+Example ex_arrival_rule :
+  arec (arun (fun k => Z.of_nat (10 + k)) (fun w => w) (init_asys 2 0)
+    [AEv 0; AEv 1; AEv 0; AEv 1; EClock 5; AEv 1; EClock 9; AEv 0; AEv 0; AEv 0; AEv 1; AEv 1; AEv 1; AEv 1]) = Some (11, 9).
+Proof. vm_compute. reflexivity. Qed.
+(* the last TTL inside the domain and the first one outside, lock physical 5, cached physical 7 *)
+Example ex_expiry_boundary :
+  let lock := compose_ts 5 2 in let last := Some (compose_ts 7 0) in
+  (is_expired last lock (two63 - 5 - 1) = false /\ until_expired last lock (two63 - 5 - 1) = two63 - 1 - 7) /\
+  (is_expired last lock (two63 - 5) = true /\ until_expired last lock (two63 - 5) = two63 - 7).
+Proof. vm_compute. repeat split; reflexivity. Qed.
 Example ex_retry_accepts :
   voutcome_of (vrun Z.of_nat true (init_vsys 2) (no_retry_sched ++ [EStep 1; EStep 1; EFlightIssue; EFlightFinish; EStep 1])) 1 = Some OAccept.
 Proof. exact retry_same_schedule. Qed.
